@@ -197,13 +197,14 @@ func (l *LLA) Apply(ra *ndp.RouterAdvertisement) error {
 	// bits long (InfiniBand, IEEE 802.15.4, FireWire) are skipped as well:
 	// package ndp can only encode Ethernet-style addresses, so a router
 	// advertisement carrying one could never be sent.
-	if len(l.Addr) != 6 {
+	addr := l.Addr
+	if addr == nil || len(addr) != 6 {
 		return nil
 	}
 
 	ra.Options = append(ra.Options, &ndp.LinkLayerAddress{
 		Direction: ndp.Source,
-		Addr:      l.Addr,
+		Addr:      addr,
 	})
 
 	return nil
